@@ -17,6 +17,7 @@
 -/
 import SpecsModel.Model.World
 import SpecsModel.Lemmas.StoreSeq
+import SpecsModel.Lemmas.MaskedWF
 namespace SpecsModel.C04
 open SpecsModel
 
@@ -196,6 +197,26 @@ theorem kinds_agree (k₁ k₂ : Nat) (a : Alloc) (ops : List StOp)
     (h₁ : ∀ op ∈ ops, op.valsOk (k₁ == 5)) (h₂ : ∀ op ∈ ops, op.valsOk (k₂ == 5)) :
     (Masked.runOps a (fresh k₁) ops).2 = (Masked.runOps a (fresh k₂) ops).2 := by
   rw [(sequence_refines k₁ a ops h₁).1, (sequence_refines k₂ a ops h₂).1]
+
+/-- A fresh storage is well-formed (map-based kinds have distinct keys); sequences keep it so. -/
+theorem fresh_wf (k : Nat) : (fresh k).inner.WF := by
+  unfold fresh newStore
+  split <;> simp [UStore.WF]
+
+/-- Clearing (or dropping) the storage after any sequence destroys the values of the final map,
+    each exactly once, plus — for the default-filled vector kind 2 only — default fillers (0). -/
+theorem clear_after_sequence (k : Nat) (a : Alloc) (ops : List StOp)
+    (hv : ∀ op ∈ ops, op.valsOk (k == 5)) :
+    ∃ r fillers, (Masked.runOps a (fresh k) ops).1.clear = .ok r ∧ (∀ x ∈ fillers, x = 0) ∧
+      (k ≠ 2 → fillers = []) ∧
+      r.destroyed.Perm ((MapSpec.runOps a.isAlive [] ops).1.map (·.2) ++ fillers) := by
+  have hs := (Sim.run a ops (fresh_sim k) (by rw [nullBased_newStore]; exact hv)).2
+  have hw := Masked.runOps_wf UStore.preserved_wf a ops (fresh_wf k)
+  obtain ⟨r, f, h1, h2, h3, h4⟩ := hs.clear_perm hw
+  refine ⟨r, f, h1, h2, fun hk => h3 ?_, h4⟩
+  apply Masked.runOps_wf (UStore.preserved_dvecBased false) a ops
+  unfold fresh newStore
+  split <;> first | rfl | exact absurd rfl hk
 
 /-! ## (c) Slice views
   `SliceAccess` is implemented by `VecStorage`, `DefaultVecStorage`, `DenseVecStorage` only; the
